@@ -23,7 +23,7 @@ PROP = "C01"
 LEVEL = "proof"
 META = {
     "category": "proof",
-    "technique": "Coq reference semantics (fuelled big-step, generic state-relation induction) + extracted-interpreter differential run against main",
+    "technique": "Coq reference semantics (fuelled interpreter proved sound and complete for a relational big-step semantics; generic state-relation induction) + the int64 arithmetic helpers and the typed evaluator's operator chain regenerated from clang's AST on every run with UB-freedom / wrap-around / reference-agreement theorems about the generated terms + extracted-interpreter differential run against main",
     "text": "The documented C-like semantics of the sequential core is a Gallina interpreter (coq/Lang: exact 64-bit intermediates, truncating "
             "division, sign-of-dividend remainder, arithmetic shift, checked stores, row-major bounds-checked arrays, lexical scopes, private "
             "frames, plain structs as groups of member cells). Machine-checked for every program, input and fuel: output only grows and an error cuts the run exactly at the failing step "
